@@ -522,7 +522,14 @@ def build(case):
         tr = gen.NameProxy(tr, dict(zip(("a", "b", "s", "c"), NAME_QUADS[case["names"] % len(NAME_QUADS)])))
         M.CTX.count("less_usual_feature_names")
     for k in NAMES:
-        tr.createAnalyticalFeature(k, list(case["feat"][k]))
+        col_ = list(case["feat"][k])
+        import numpy as np
+        if (n + int(case["times_ms"][0] // 250)) % 5 == 2 and np.geterr()["under"] != "raise":
+            # the values (NaN included) held as numpy scalars, as list(array) hands them out (not in the chunks where
+            # numpy was asked to raise on underflow: arithmetic on numpy scalars then raises by the user's own choice)
+            col_ = [np.float64(v) for v in col_]
+            M.CTX.count("values_held_as_numpy_scalars")
+        tr.createAnalyticalFeature(k, col_)
     if (n + int(case["times_ms"][0] // 500)) % 4 == 0:
         # the track handed to the evaluator is itself the product of another public operation (same values)
         if isinstance(tr, gen.NameProxy):
